@@ -32,21 +32,26 @@ RULE = (
 ASSUMPTIONS = ["packaging.version 26.3 implements PEP 440 ordering and normalisation (reference)"]
 
 RELEASES = ["0", "1", "1.0", "1.0.0", "1.1", "1.10", "01.2", "2", "2020.1001", "201811.0007"]
+NUMS = ("", "0", "1", "01", "10")  # number absent / zero / one / leading zero / two digits
 PRE_FULL = (
-    [l + n for l in ("a", "b", "c", "rc", "alpha", "beta", "pre", "preview") for n in ("", "0", "1")]
-    + [s + l + "1" for l in ("a", "rc") for s in (".", "-", "_")]
-    + ["a.1", "rc-1", "beta_2", "-alpha.2"]
+    [l + n for l in ("a", "b", "c", "rc", "alpha", "beta", "pre", "preview") for n in NUMS]
+    + [s + l + n for l in ("a", "rc") for s in (".", "-", "_") for n in ("", "0", "1")]
+    + [l + s + n for l in ("a", "rc", "beta") for s in (".", "-", "_") for n in ("0", "2")]
+    + ["-alpha.2", "_rc_0"]
 )
-POST_FULL = [".post0", "post1", "-1", "r1", ".rev", "-post.2", "_post2"]
-DEV_FULL = [".dev0", "dev1", "-dev", ".dev.2"]
-LOCAL_FULL = ["+abc", "+1", "+abc.1", "+ABC_1", "+abc-1", "+01"]
-EPOCH_FULL = ["0!", "1!"]
+POST_FULL = (
+    [s + l + n for l in ("post", "rev", "r") for s in ("", ".", "-", "_") for n in NUMS]
+    + ["-0", "-1", "-01", "-10", ".post.2", "-post-0", "post_3"]  # implicit post release: <release>-N
+)
+DEV_FULL = [s + "dev" + n for s in ("", ".", "-", "_") for n in NUMS] + [".dev.2", "dev-0", "dev_1"]
+LOCAL_FULL = ["+abc", "+1", "+0", "+abc.1", "+ABC_1", "+abc-1", "+01", "+1.abc", "+abc.abd", "+10", "+9"]
+EPOCH_FULL = ["0!", "1!", "00!", "10!"]
 SEG_FULL = {"v": ["v"], "e": EPOCH_FULL, "pre": PRE_FULL, "post": POST_FULL, "dev": DEV_FULL, "loc": LOCAL_FULL}
 SEG_SMALL = {
     "v": ["v"],
     "e": ["0!", "1!"],
     "pre": ["a", "a1", "b0", "rc1", "alpha1", "c", "pre.1", "preview-2"],
-    "post": [".post0", "post1", "-1", ".rev"],
+    "post": [".post0", "post1", "-1", "-0", ".rev"],
     "dev": [".dev0", "dev1", "-dev"],
     "loc": ["+abc", "+1", "+abc.1"],
 }
@@ -132,11 +137,16 @@ def _prepare(tier, seed):
         except pv.InvalidVersion:
             ref.append(None)
     # impl ranks from its own sort
-    order = sorted(range(len(ss)), key=lambda i: keys[i])
+    sort_error = None
+    try:
+        order = sorted(range(len(ss)), key=lambda i: keys[i])
+    except Exception as ex:  # a comparison that raises: reported as a violation, ranks fall back to the reference
+        sort_error = f"{type(ex).__name__}: {ex}"
+        order = list(range(len(ss)))
     rank = [0] * len(ss)
     r = 0
     for n, i in enumerate(order):
-        if n > 0 and keys[order[n - 1]] < keys[i]:
+        if n > 0 and sort_error is None and keys[order[n - 1]] < keys[i]:
             r += 1
         rank[i] = r
     # reference ranks among PEP 440-valid strings
@@ -148,7 +158,7 @@ def _prepare(tier, seed):
         if n > 0 and ref[vorder[n - 1]] < ref[i]:
             r += 1
         rrank[i] = r
-    _CTX.update(key=key, ss=ss, keys=keys, ref=ref, rank=rank, rrank=rrank, order=order)
+    _CTX.update(key=key, ss=ss, keys=keys, ref=ref, rank=rank, rrank=rrank, order=order, sort_error=sort_error)
     return _CTX
 
 
@@ -182,6 +192,13 @@ def run_chunk(chunk):
     st = Stats()
     c = _prepare(chunk[1], chunk[2])
     ss, keys, ref, rank, rrank = c["ss"], c["keys"], c["ref"], c["rank"], c["rrank"]
+    if c["sort_error"]:
+        st.outcomes["sort-raised"] += 1
+        if chunk[0] == "unary":
+            st.violation("C16:comparison-raises-in-sort", [], {"error": c["sort_error"]})
+        else:
+            _rows_safe(st, c, chunk[3])
+        return st
     if chunk[0] == "unary":
         impl_mod = type(keys[0]).__module__
         for i, s in enumerate(ss):
@@ -245,6 +262,26 @@ def run_chunk(chunk):
     return st
 
 
+def _rows_safe(st, c, rows):
+    """Fallback when sorting raised: find the pairs whose comparison raises or disagrees with the reference."""
+    ss, keys, ref, rrank = c["ss"], c["keys"], c["ref"], c["rrank"]
+    for i in rows:
+        for j in range(len(ss)):
+            st.evaluations += 1
+            try:
+                ops = (keys[i] < keys[j], keys[i] == keys[j], keys[i] > keys[j])
+            except Exception as ex:
+                st.violation(
+                    f"C16:comparison-raises:{_sig_class(ss[i], ref[i])}-vs-{_sig_class(ss[j], ref[j])}",
+                    [ss[i], ss[j]], {"error": f"{type(ex).__name__}: {ex}"})
+                continue
+            va, vb = rrank.get(i), rrank.get(j)
+            if va is not None and vb is not None and ops != (va < vb, va == vb, va > vb):
+                st.violation(f"C16:pep440-order:{_sig_class(ss[i], ref[i])}-vs-{_sig_class(ss[j], ref[j])}", [ss[i], ss[j]], {"impl": ops})
+            elif va is None and vb is not None and not ops[0]:
+                st.violation("C16:legacy-not-below-pep440", [ss[i], ss[j]], {"impl": ops})
+
+
 def replay(case, st):
     if len(case) == 1:
         s = case[0]
@@ -262,7 +299,11 @@ def replay(case, st):
     if len(case) < 2:
         return
     a, b = bvversion.parse_version(case[0]), bvversion.parse_version(case[1])
-    ops = (a < b, a == b, a > b)
+    try:
+        ops = (a < b, a == b, a > b)
+    except Exception as ex:
+        st.violation("C16:comparison-raises", case, {"error": repr(ex)})
+        return
     try:
         ra, rb = pv.Version(case[0]), pv.Version(case[1])
         if ops != (ra < rb, ra == rb, ra > rb):
